@@ -164,7 +164,10 @@ def one_case(sh, fa, rng, case, tier):
     tree0 = RC.from_datum(node, datum)
     expected = RB.to_py(node, tree0)
     ncoll, depth = collections_in(tree0)
-    parsed = fa.parse_schema(copy.deepcopy(js))
+    st, parsed = guard(fa.parse_schema, copy.deepcopy(js))
+    if st == "exc":
+        sh.violation("parse-rejected-valid-schema", "parse_schema raised %s on a specification-valid schema" % exc_name(parsed), {"schema": js, "datum": datum})
+        return
     modes = ["single", "random", "random"]
     if ncoll:
         modes += ["each_neg", "single_neg", "each_pos", "random"]
@@ -294,7 +297,7 @@ def run_shard(spec):
         case = cases[i] if i < nb else gen_case(rng, dict(bytes_defaults=0.0), dict(big=0.01, size_budget=120))
         i += 1
         sh.feat(case["features"])
-        one_case(sh, fa, rng, case, spec["tier"])
+        sh.run_case(one_case, sh, fa, rng, case, spec["tier"])
         if i % 40 == 1:
             sh.sample({"schema": case["schema"], "datum": printable(case["datum"], 200)})
     return sh.result()
